@@ -302,7 +302,7 @@ def run(chk):
     base = corpus()
     chk.coverage["corpus_texts"] = len(base)
     texts = []   # (kind, text)
-    n_soup, n_mut, n_nest = (400, 700, 240) if quick else (6000, 12000, 3000)
+    n_soup, n_mut, n_nest = (400, 700, 240) if quick else (18000, 36000, 8000)
     for _ in range(n_soup):
         texts.append(("soup", "".join(rng.choice(TOKENS) + rng.choice(["", " "]) for _ in range(rng.choice([1, 2, 4, 8, 16, 40])))))
     for _ in range(n_mut):
@@ -343,11 +343,14 @@ def run(chk):
     # ================================================================== (iii) determinism
     dets = []
     progs = [t for t in base if "fn main" in t or "let " in t]
-    for _ in range(100 if quick else 1200):
+    for _ in range(100 if quick else 3000):
         t = rng.choice(progs) if rng.random() < 0.6 else mutate(rng, rng.choice(base), base)
         names = sorted(set(_re.findall(r"let ([a-z_][a-z_0-9]*)", t)))[:6]
         before = [rng.choice(base) for _ in range(rng.choice([0, 1, 3]))] + [mutate(rng, rng.choice(base), base)]
         dets.append({"op": "lex", "f": "determinism", "src": t, "before": before, "get": names})
+    # witness of a repaired defect: the error text embedded a HashMap's (random) iteration order
+    dets.append({"op": "lex", "f": "determinism", "before": [], "get": [],
+                 "src": "struct Vector(x: float, y: float, z: float, w: float)\nfn main()->bool{\n let v = Vector(3.0,4.0,5.0,6.0);\n assert(v.display().to_str() == \"\")\n}"})
     resps = run_harness(dets, per_req_timeout=20.0)
     for q, r in zip(dets, resps):
         chk.evaluations += 1
@@ -396,4 +399,8 @@ def replay(path):
     print("expected:", rp.get("expected"))
     print("now     :", json.dumps(shown, ensure_ascii=False)[:2000])
     bad = isinstance(got, dict) and any(k in got for k in ("panic", "abort", "hang"))
+    if isinstance(got, dict) and "first" in got:
+        same = got["first"] == got["again"] == got["after"] and got["first"].get("compile") == got["limited"].get("compile")
+        print("outcomes identical across repetitions:", same)
+        bad = bad or not same
     return 1 if bad else 0
